@@ -1,6 +1,6 @@
 (** Property C02 - clean close and reopen preserves the exact map contents. *)
 From Aby Require Import Base Vu64 Hash KeyTypes Consts Sizing Alloc AllocInv Htx Htx_proofs Store Spec
-  Refine Refine_all Iter Iter_proofs Layout Bulk Db.
+  Refine Refine_all Iter Iter_proofs Layout Load Load_proofs Load_all Bulk Db.
 
 (** In the model the files of a map ARE its state: dropping the last handle flushes every buffer
     ([close]: the disk images become the logical images, which [Layout.render] spells out byte by
@@ -77,6 +77,18 @@ Proof.
     rewrite Hr. cbn [rbind]. rewrite Hrs. cbn [rbind].
     split; [reflexivity|]. split; [exact HI'|]. split; [exact HR'|].
     split; [congruence|]. rewrite Hn', Hn2. exact Hn1.
+Qed.
+
+(** through the bytes: what a re-open reads back from the files written at close is the state at
+    the time of the drop (reader round trip, see Props/C05.v), with the contents of the ideal map *)
+Theorem C02_reopen_through_the_bytes : forall s m imgs,
+  wf_state s -> fits64 s -> represents s m -> render s = Ok imgs ->
+  (exists s', load (kt s) imgs = Ok s' /\ kt s' = kt s /\ hx s' = hx s /\ keyf s' = keyf s /\ valf s' = valf s) /\
+  (exists s' l, load (kt s) imgs = Ok s' /\ contents s' = Ok l /\ l ≡ₚ map_to_list m).
+Proof.
+  intros s m imgs Hw H64 HR Hr. split.
+  - exact (load_render_closed s imgs Hw H64 Hr).
+  - exact (load_contents_closed s m imgs Hw H64 HR Hr).
 Qed.
 
 (** reopening with different parameters: see C07_open_existing_ignores_params (Props/C07.v) *)
